@@ -10,7 +10,9 @@ Oracle (counters kept by the harness itself, never RecoveryRequest.version which
   U1  no job's command is executed more than `limit` times;
   U2  the failing phase of J is attempted at most `limit` times;
   U3  f >= limit  => executor.run() raises (not returns, not quiescent-deadlocks) and J's failing
-      phase was attempted exactly `limit` times;
+      phase was attempted exactly `limit` times (for a fail-stop(own) fault of a two-input job: at
+      most `limit` times - the job also fails in its other transfer / schedule step, which consumes
+      budget);
   U4  f < limit and soft => the run completes with the right output, J's phase attempted f+1 times,
       J's command ran f+1 times (execute phase) or once (schedule/transfer phase);
   U5  RecoveryRequest.version never exceeds `limit`.
@@ -234,8 +236,13 @@ def run_case(sh: Shard, case: dict) -> None:
         sh.count("oracle_exhausted_raises")
         if res.status != "raised":
             bad(f"job failed {f} >= limit {limit} times but executor.run() ended with status {res.status}", uncounted=True)
-        elif attempts != limit:
+        elif attempts != limit and (kind == "soft" or not two_input):
+            # (a fail-stop(own) fault of a two-input job makes the job fail in its other transfer / schedule step too;
+            # those secondary failures of the same job consume budget, so it may be aborted after fewer attempts of
+            # the faulted phase - still "within the bound", which U2 checks)
             bad(f"exhausted retries: failing phase attempted {attempts} times, expected exactly limit={limit}", uncounted=True)
+        elif attempts != limit:
+            sh.count("two_input_job_aborted_before_limit_attempts_of_faulted_phase")
     elif kind == "soft":
         sh.count("oracle_below_limit_completes")
         if res.status != "ok" or res.outputs != [expected]:
